@@ -179,4 +179,75 @@ theorem argument_transforms_are_source :
     ∧ WrapProg.StaticAnytraitChangeNotifyWrapper_argument_transforms
       = [(0, []), (1, [.obj]), (2, [.obj, .name]), (3, [.obj, .name, .new]), (4, [.obj, .name, .old, .new])] := by
   decide
+
+/-! ### `ExtendedTraitChangeNotifyWrapper` (the internal wrappers of extended-name listeners): no `_change_accepted`
+filter (an `Uninitialized` old value and an equal new value are passed on, no instance trait is created), no tracers;
+everything else as for `TraitChangeNotifyWrapper`. -/
+
+theorem ext_dispatch_change_event_is_source (C : WC) (s : OSt) :
+    Model.PyW.run C WrapProg.ExtendedTraitChangeNotifyWrapper_dispatch_change_event
+        [.self, .object, .name, .id C.old, .id C.new, .handler] s = dispatchSem C s := by
+  unfold dispatchSem
+  generalize hs0 : s = s0
+  handler_cases [WrapProg.ExtendedTraitChangeNotifyWrapper_dispatch_change_event]
+
+theorem ext_notify_function_is_source (C : WC) (s : OSt) :
+    Model.PyW.run C WrapProg.ExtendedTraitChangeNotifyWrapper_notify_function_listener
+        [.self, .object, .name, .id C.old, .id C.new] s = dispatchSem C s := by
+  unfold dispatchSem
+  generalize hs0 : s = s0
+  handler_cases [WrapProg.ExtendedTraitChangeNotifyWrapper_notify_function_listener]
+
+theorem ext_notify_method_is_source (C : WC) (s : OSt) (k : Nat) (hn : C.wrapName = some k) :
+    Model.PyW.run C WrapProg.ExtendedTraitChangeNotifyWrapper_notify_method_listener
+        [.self, .object, .name, .id C.old, .id C.new] s
+      = if C.ownerAlive then dispatchSem C s else (.ok .none, s) := by
+  unfold dispatchSem
+  cases ha : C.ownerAlive
+  · pw_exec [WrapProg.ExtendedTraitChangeNotifyWrapper_notify_method_listener, hn, ha]
+  · generalize hs0 : s = s0
+    handler_cases [WrapProg.ExtendedTraitChangeNotifyWrapper_notify_method_listener, hn, ha]
+
+/-! ### `TraitChangeNotifyWrapper.init` -/
+
+/-- What `init(handler, owner, target)` does, case by case: a bound method with a live `__self__` gets a weak
+reference to its owner (callback `listener_deleted`), the method NAME, the notifier list, the METHOD listener and the
+transform for `co_argcount - 1` arguments; anything else (a function, a method without `__self__`) gets — after the
+weak reference to `target`, for a function with a target — no name, the handler itself, the FUNCTION listener and the
+transform for `co_argcount` arguments; more than four arguments: `TraitNotificationError`, raised before a listener
+or a transform is installed.  Returned: the argument count. -/
+def initSpec (C : WC) (target : Bool) : Except Exc Val × List (Model.PyW.Attr × Val) :=
+  match C.cand with
+  | .method (some _) k =>
+    let pre := [(Model.PyW.Attr.object, Val.weak), (.name, .nameV k), (.owner, .ownerList)]
+    if (C.candArgc : Int) - 1 > 4 then (.error .other, pre)
+    else (.ok (.int ((C.candArgc : Int) - 1)),
+          pre ++ [(.notify_listener, .listenerRef true), (.argument_transform, .xformV ((C.candArgc : Int) - 1))])
+  | c =>
+    let pre := if (target && (match c with | .func _ => true | _ => false)) = true
+      then [(Model.PyW.Attr.object, Val.weak), (.owner, .ownerList)] else []
+    if (C.candArgc : Int) > 4 then (.error .other, pre)
+    else (.ok (.int C.candArgc),
+          pre ++ [(.name, .none), (.handler, .cand), (.notify_listener, .listenerRef false),
+                  (.argument_transform, .xformV C.candArgc)])
+
+macro "init_exec" "[" ts:Lean.Parser.Tactic.simpLemma,* "]" : tactic =>
+  `(tactic| simp [runInit, exec, eval, evalArgs, bindArgs, setVar, truthy, getGlob, getAttr, callFn,
+      WrapProg.TraitChangeNotifyWrapper_init, candVal, initSpec, $ts,*])
+
+theorem init_is_source (C : WC) (s : OSt) (target : Bool) (hc : C.cand ≠ .self) (h1 : 1 ≤ C.candArgc) :
+    runInit C WrapProg.TraitChangeNotifyWrapper_init
+        [.self, candVal C.cand, .ownerList, if target then .target else .none] s = initSpec C target := by
+  rcases hcand : C.cand with _ | f | ⟨_ | o, k⟩
+  · exact absurd hcand hc
+  · by_cases hg : (C.candArgc : Int) > 4 <;> cases target <;> init_exec [hcand, hg]
+  · by_cases hg : (C.candArgc : Int) > 4 <;> cases target <;> init_exec [hcand, hg]
+  · have a1 : ¬ ((C.candArgc : Int) < 1) := by omega
+    have a2 : (1 : Int) ≤ (C.candArgc : Int) := by omega
+    by_cases hg : (C.candArgc : Int) - 1 > 4
+    · cases target <;> init_exec [hcand, hg, a1, a2]
+    · have a3 : (C.candArgc : Int) - 1 ≤ 4 := by omega
+      have a4 : (C.candArgc : Int) ≤ 5 := by omega
+      have a5 : (0 : Int) ≤ (C.candArgc : Int) - 1 := by omega
+      cases target <;> init_exec [hcand, hg, a1, a2, a3, a4, a5]
 end TraitsVerif.Lemmas.WrapSource
